@@ -15,11 +15,25 @@ TypeOK) and its labelled state graph is replayed as a transition tour on the rea
 * on `ToSimple` edges the converted SimpleGrammar has the same names/required/defaults and accepts what
   `ConversionMustAccept` says;
 * every edit that leaves a state in which a lazily built view was requested is followed by the same query
-  (staleness paths), and deep random histories from TLC's simulation mode are replayed the same way.
+  (staleness paths), and deep random histories from TLC's simulation mode are replayed the same way.  A query met
+  again on a later path is still *performed* with a datum the specification accepts, so that the lazily built view
+  (compiled validator, rebuilt model) really exists before the next edit;
+* `EditRequired(op, S)`: every operation of the live `required_names` set (add, remove, discard, clear, |=, -=, &=)
+  keeps the views requested so far: the tours contain  Validate ; EditRequired(op) ; Validate(data lacking the name)
+  for every op and every class, and  Validate|Pickle ; Copy ; Validate(copy, wrongly typed data)  and
+  Validate ; Copy ; EditRequired(copy) ; Validate(copy)  (counted in the evidence, required by vacuity checks);
+* updates that raise (`RejectSchema`, `RejectData` on the grammar, `OtherFails` on another grammar object) leave the
+  grammar unchanged and the next edit of any grammar means what it always means (the `fail` flag of the
+  specification's state makes "an update fails, then this edit" a transition of its own); schemas with a nested
+  object among their properties are applied without merge.
 `PydanticGrammar` is driven through the operations whose meaning it shares (elements, merge, rename, delete,
 restrict, clear, pickle, copy; an element is required exactly when its field has no default).
-GrammarImpl.tla (lazily compiled validator and cached schema of the JSON grammar, the required-names object
-of a copy) is checked by TLC with the coherent rules and with the rules of the code as read.
+GrammarImpl.tla (lazily compiled validator and cached schema of the JSON grammar, what the validator was compiled
+from, the rebuild flag and the model of a pydantic grammar and of its copy, the required-names object of a copy) is
+checked by TLC with the coherent rules, with the rules of the code as read, and with one variant per catalogued
+staleness mechanism; the refuting trace of a variant names a path shape that the tours must have executed.
+TLC runs and replays are independent: they run four at a time (threads for TLC, forked processes for the replays),
+results are merged in a fixed order.
 The JSON grammar files shipped with gemseo are loaded and compared with the reference validator, and with
 the specification where their definition is expressible in the type lattice.
 """
@@ -36,7 +50,9 @@ from ..tlaval import to_tla
 from . import c15_impl as I
 
 EDITS = ["UpdateFromNames", "UpdateFromTypes", "UpdateFromData", "Update", "RestrictTo", "Rename", "Delete",
-         "AddNamespace", "Clear", "Pickle", "SetDefault", "DelDefault", "Unrequire", "Require"]
+         "AddNamespace", "Clear", "Pickle", "SetDefault", "DelDefault", "Unrequire", "Require", "EditRequired"]
+REQ_OPS = ("add", "remove", "discard", "clear", "ior", "isub", "iand")
+FAILING = ("RejectSchema", "RejectData", "OtherFails")
 REJECTS = ["RejectDefault", "RejectRequire", "RejectRestrict", "RejectDelete"]
 QUERIES_JSON = ["Validate", "Schema", "ToJson", "ToSimple", "Repr"]
 QUERIES_SIMPLE = ["Validate", "Repr"]
@@ -46,10 +62,10 @@ INVARIANTS = ["TypeOK", "WellFormed"]
 
 
 def cfg(cls, ops, *, atoms, dkinds=("iarr",), nslots=1, max_elems=2, max_atoms=2, depth=2, probe=False,
-        names=("a", "b", "c")):
+        names=("a", "b", "c"), req_ops=REQ_OPS):
     s = (f'CONSTANTS Class = "{cls}"\n Names = {to_tla(set(names))}\n TAtoms = {to_tla(set(atoms))}\n'
          f" DKinds = {to_tla(set(dkinds))}\n Ops = {to_tla(set(ops))}\n NSlots = {nslots}\n"
-         f" MaxElems = {max_elems}\n MaxAtoms = {max_atoms}\n MaxDepth = {depth}\n")
+         f" MaxElems = {max_elems}\n MaxAtoms = {max_atoms}\n MaxDepth = {depth}\n ReqOps = {to_tla(set(req_ops))}\n")
     if probe:
         return s + "INIT PInit\nNEXT PNext\nCHECK_DEADLOCK FALSE\n"
     s += "SPECIFICATION Spec\nCONSTRAINT Bound\nCHECK_DEADLOCK FALSE\n"
@@ -67,6 +83,25 @@ def copy_defaults(thorough, queries):
                                        names=("a", "b", "c") if thorough else ("a", "b")), ops)
 
 
+def required_edits(cls, thorough):
+    """A lazily built view is filled (validate / schema / pickle), the required names are edited through the live
+    `required_names` set, the view is asked again: validation follows the current required names."""
+    ops = ["UpdateFromNames", "UpdateFromTypes", "EditRequired", "RejectRequire", "Pickle", "Validate"]
+    if cls == "json":
+        ops += ["Schema", "ToJson"]
+    return ("required", ops, dict(atoms=["Int"], depth=3, max_elems=3 if thorough else 2,
+                                  names=("a", "b", "c") if thorough else ("a", "b")), ops)
+
+
+def copy_clean(cls, thorough):
+    """A copy taken from a grammar whose lazily built views are up to date (validated, pickled, unpickled), used
+    before any edit of its own, then edited through its own required names."""
+    ops = ["UpdateFromTypes", "Copy", "Pickle", "EditRequired", "Validate"] + (["Delete", "Rename"] if thorough else [])
+    return ("copy-clean", ops, dict(atoms=["Int", "Str"] if thorough else ["Int"], nslots=2, depth=4 if thorough else 3,
+                                    max_elems=2, names=("a", "b"),
+                                    req_ops=REQ_OPS if thorough else ("discard", "clear")), ops)
+
+
 def configs(ck: Check, cls: str):
     """(name, ops, cfg keywords, require_actions).  Several focused alphabets instead of one product."""
     js = cls == "json"
@@ -79,13 +114,13 @@ def configs(ck: Check, cls: str):
         return [("types", ops, dict(atoms=["Int", "Num", "Str"] if t else ["Int", "Num"], dkinds=("iarr", "str") if t else ("iarr",),
                                     depth=3 if t else 2, max_elems=3 if t else 2), ops),
                 ("copy", cops, dict(atoms=["Int"], nslots=2, depth=4 if t else 3, max_elems=2), cops),
-                copy_defaults(t, [])]
+                copy_defaults(t, []), required_edits(cls, t), copy_clean(cls, t)]
     q = QUERIES_JSON if js else QUERIES_SIMPLE
     q1 = q if t else [x for x in q if x != "Repr"]
     out = []
     # 1. definition edits x types (merge for JSON), no defaults
     ops = ["UpdateFromNames", "UpdateFromTypes", "UpdateFromData", "RestrictTo", "Rename", "Delete", "Clear",
-           "Pickle", "Unrequire", "Require", "RejectRestrict", "RejectDelete", "RejectRequire"] + q1
+           "Pickle", "RejectRestrict", "RejectDelete"] + q1 + (["Unrequire", "Require", "RejectRequire"] if t else [])
     if not js:
         ops.append("RejectMerge")
     atoms = ["Int", "Num", "Str", "Arr", "Bool", "Any"] if t else ["Int", "Num", "Arr"]
@@ -103,11 +138,20 @@ def configs(ck: Check, cls: str):
         ops += ["Require", "SetDefault", "Rename"] + (["ToJson"] if js else [])
     out.append(("copy", ops, dict(atoms=["Int"], nslots=2, depth=4 if t else 3, max_elems=2), ops))
     out.append(copy_defaults(t, ["Validate"] if t else []))
+    # 3b. edits of the live required-names set around filled views; copies of grammars with filled views
+    out.append(required_edits(cls, t))
+    out.append(copy_clean(cls, t))
     # 4. schemas and files (JSON only)
     if js:
         ops = ["UpdateFromNames", "UpdateFromTypes", "UpdateFromSchema", "Reload", "Unrequire", "Pickle",
                "Validate", "Schema", "ToJson"]
         out.append(("schema", ops, dict(atoms=["Int"], depth=4 if t else 3, max_elems=2), ops))
+        # 5. updates that raise (on this grammar object or on another one), then the next edit
+        #    (and schemas with a nested object among their properties: 3 elements)
+        ops = ["UpdateFromTypes", "UpdateFromSchema", "RejectSchema", "RejectData", "OtherFails", "Validate", "ToJson"]
+        if t:
+            ops += ["UpdateFromData", "Delete", "Pickle"]
+        out.append(("failed-update", ops, dict(atoms=["Int", "Str"] if t else ["Int"], depth=3, max_elems=3), ops))
     return out
 
 
@@ -136,7 +180,7 @@ class Oracle:
         f = self.ck.work / f"probe-{self.cls}-{time.time_ns()}.json"
         f.write_text(json.dumps(recs))
         r = self.ck.tlc("GrammarProbe", cfg(self.cls, [], atoms=["Int"], probe=True), workers=1, timeout=600,
-                        count=False, coverage=False, env={"PROBE_FILE": str(f)})
+                        count=False, coverage=False, env={"PROBE_FILE": str(f)}, tag=f.stem)
         seen = set()
         for v in r.printed():
             if not isinstance(v, tuple) or not v:
@@ -234,12 +278,55 @@ class Tour:
         self.auto_validate = False
         self.n_steps = 0
         self.n_probes = 0
+        self.shapes = {}   # path shapes actually executed on the real objects (vacuity of the staleness paths)
+        self.filled = {}   # slot -> "Validate" | "Pickle": how the validator of the slot was last brought up to date
+        self.nested_update = False
 
     def sig(self, clause, action, hist, **kw):
         s = {"clause": clause, "class": self.cls, "op": action,
              "copied": "Copy" in hist, "pickled": "Pickle" in hist}
+        s.update(self.history_class(hist))
         s.update(kw)
         return s
+
+    def history_class(self, hist):
+        """Signature keys naming the class of the history: an update raised earlier; a schema with a nested object
+        among its properties was applied earlier."""
+        out = {}
+        if any(a in hist for a in FAILING):
+            out["failed_update"] = True
+        if self.nested_update:
+            out["nested_update"] = True
+        return out
+
+    def shape(self, action, args, compared):
+        """Counts the executed shapes  Validate ; EditRequired(op) ; Validate  and  Validate|Pickle ; Copy ;
+        Validate(copy)  (steps on the real objects with no edit of the elements in between; the last Validate is
+        one whose verdicts were compared with the specification's)."""
+        if action == "Validate":
+            s = args[0]
+            f = self.filled.get(s)
+            if isinstance(f, tuple) and compared:
+                self.shapes[f[1]] = self.shapes.get(f[1], 0) + 1
+            self.filled[s] = "Validate"
+        elif action == "Pickle":
+            self.filled[args[0]] = "Pickle"
+        elif action == "EditRequired":
+            s = args[0]
+            f = self.filled.get(s)
+            if f in ("Validate", "Pickle") or (isinstance(f, tuple) and f[0] == "copy"):
+                self.filled[s] = ("edit", f"{f if isinstance(f, str) else 'Copy'};EditRequired({args[1]});Validate")
+            elif not isinstance(f, tuple):
+                self.filled.pop(s, None)
+        elif action == "Copy":
+            f = self.filled.get(1)
+            if f in ("Validate", "Pickle"):
+                self.filled[2] = ("copy", f"{f};Copy;Validate(copy)")
+            else:
+                self.filled.pop(2, None)
+        elif action not in QUERIES_JSON and action not in REJECTS and action not in FAILING:
+            if args and isinstance(args[0], int):
+                self.filled.pop(args[0], None)
 
     def detail(self, path, k, **kw):
         e = self.gr.edges
@@ -254,7 +341,7 @@ class Tour:
     def compare_state(self, impl, state, action, args, hist, path, k):
         """projection of every live real grammar == state computed by TLC.  Returns False on divergence."""
         ok = True
-        edited = args[0] if args and action != "Copy" else 2
+        edited = args[0] if args and action != "Copy" else (0 if action == "OtherFails" else 2)
         for s, G in enumerate(state["g"], start=1):
             if not G["live"]:
                 continue
@@ -283,15 +370,22 @@ class Tour:
             # validate(data, raise_exception=False) never raises and returns nothing (the other convention)
             self.ck.guard("ValidateMeaning", self.sig("ValidateMeaning", action, hist, convention="no_exception"),
                           impl.slots[s].validate, {"zz": None}, raise_exception=False)
+            elems = I.fn(G["elems"])
+            optional = set(elems) - set(G["req"])
             for d, ok in self.oracle.probes[key]:
                 got = impl.accepts(s, I.data_of(d))
                 self.n_probes += 1
                 if got != ok:
-                    self.ck.violation("ValidateMeaning", self.sig("ValidateMeaning", action, hist, expected=ok,
-                                                                  val=flags["val"]),
-                                      self.detail(path, k, slot=s, data=d, spec_accepts=ok, impl_accepts=got,
-                                                  elems=G["elems"], req=G["req"]))
-                    break
+                    # the signature names the class of the datum: it lacks an element that is not required / the
+                    # grammar has a nested-object element (transport: both are read off the specification's state)
+                    new = self.ck.violation(
+                        "ValidateMeaning",
+                        self.sig("ValidateMeaning", action, hist, expected=ok, val=flags["val"],
+                                 optional_missing=bool(optional - set(d))),
+                        self.detail(path, k, slot=s, data=d, spec_accepts=ok, impl_accepts=got,
+                                    elems=G["elems"], req=G["req"]))
+                    if new:
+                        break
         elif action in ("ToJson", "Schema"):
             via = "to_json" if action == "ToJson" else "schema"
             props, req = impl.export(s, via)
@@ -311,8 +405,9 @@ class Tour:
             if good and action == "ToJson":
                 # three-way agreement: the reference validator on to_json() gives the specification's verdicts
                 pr = self.oracle.probes[key]
+                sig = {"class": self.cls, "what": "tour_state", **self.history_class(hist)}
                 self.ref.add(impl.to_json(s), [I.jsonable(I.data_of(d)) for d, _ in pr], [ok for _, ok in pr],
-                             {"class": self.cls, "what": "tour_state"}, self.detail(path, k, slot=s))
+                             sig, self.detail(path, k, slot=s))
         elif action == "ToSimple":
             try:
                 simple = impl.slots[s].to_simple_grammar()
@@ -343,11 +438,14 @@ class Tour:
         elif action == "Repr":
             self.ck.guard("QueriesPure", self.sig("QueriesPure", action, hist), repr, impl.slots[s])
 
-    def touch(self, impl, action, args):
+    def touch(self, impl, action, args, state):
+        """The effect of a query that was already compared on another path: the lazily built view is really built
+        (a datum the specification accepts goes through the whole validation, not only the required names)."""
         g = impl.slots[args[0]]
         try:
             if action == "Validate":
-                g.validate({}, raise_exception=False)
+                good = next((d for d, ok in self.oracle.probes[gkey(state["g"][args[0] - 1])] if ok), {})
+                g.validate(I.data_of(good), raise_exception=False)
             elif action == "Schema":
                 g.schema  # noqa: B018
             elif action == "ToJson":
@@ -360,18 +458,22 @@ class Tour:
         gr = self.gr
         impl = I.Impl(self.cls, self.oracle.others, self.ck.work)
         hist = []
+        self.filled = {}
+        self.nested_update = False
         state = gr.states[gr.init[0]]
         for k, j in enumerate(path):
             src, dst, action, args = gr.edges[j]
             prev, state = gr.states[src], gr.states[dst]
             self.n_steps += 1
             is_query = action in QUERIES_JSON
+            compared = False
             if is_query:
                 if j not in self.heavy_done or (full_from is not None and k >= full_from):
                     self.query(impl, state, prev, action, args, hist, path, k)
                     self.heavy_done.add(j)
+                    compared = True
                 else:  # already compared on another path: only the effect of the call (lazily built views)
-                    self.touch(impl, action, args)
+                    self.touch(impl, action, args, state)
             else:
                 try:
                     impl.apply(action, args)
@@ -387,8 +489,11 @@ class Tour:
                                       self.detail(path, k, exception=repr(ex), traceback=traceback.format_exc(limit=5)))
                     return k
             hist.append(action)
+            if action == "UpdateFromSchema" and any("Obj" in t for t in I.fn(self.oracle.others[args[1] - 1]["elems"]).values()):
+                self.nested_update = True
             if not self.compare_state(impl, state, action, args, hist, path, k):
                 return k
+            self.shape(action, args, compared)
             self.covered.add(j)
             if self.auto_validate and not is_query:
                 # Validate is a stuttering step of the specification, enabled in every state; TLC's simulation
@@ -396,6 +501,7 @@ class Tour:
                 for s_, G in enumerate(state["g"], start=1):
                     if G["live"]:
                         self.query(impl, state, state, "Validate", (s_,), hist, path, k)
+                        self.shape("Validate", (s_,), True)
         return len(path)
 
     def staleness_paths(self, paths, par):
@@ -405,7 +511,7 @@ class Tour:
         gr = self.gr
         need = {}
         for j, (src, dst, action, args) in enumerate(gr.edges):
-            if action in QUERIES_JSON or src not in par:
+            if action in QUERIES_JSON or src not in par or action == "OtherFails":
                 continue
             slot = 2 if action == "Copy" else args[0]
             flags = gr.states[src]["q"][(1 if action == "Copy" else slot) - 1]
@@ -460,26 +566,40 @@ def live_keys(gr):
 
 
 def tour_graph(ck: Check, cls, name, ops, kw, require):
-    """TLC: model-check the configuration and dump its labelled state graph."""
-    r = ck.tlc("Grammar", cfg(cls, ops, **kw), workers=1, timeout=900, dump=True)
+    """TLC: model-check the configuration and dump its labelled state graph (own sub-directory: several at a time)."""
+    tag = f"{cls}-{name}"
+    r = ck.tlc("Grammar", cfg(cls, ops, **kw), workers=1, timeout=900, dump=True, tag=tag, count=False)
     for a in require:  # vacuity: every action of the alphabet is taken (second number = transitions taken)
         if r.coverage.get(a, [0, 0])[1] == 0:
             raise MachineryError(f"vacuity: action {a} of Grammar never taken in {cls}/{name}")
-    dot = ck.work / "Grammar.dot"
+    dot = ck.work / tag / "Grammar.dot"
     gr = Graph(dot)
     dot.unlink()
     if len(gr.init) != 1:
         raise MachineryError("one initial state expected")
+    gr.tlc_counts = (r.distinct, r.generated)
     return gr
 
 
-def tour(ck: Check, cls, name, gr, oracle, ref):
+def tour(ck: Check, cls, name, gr, oracle, ref, req_ops=REQ_OPS):
     """Replay the transition tour of a dumped graph on the real grammars."""
     t0 = time.time()
     t = Tour(ck, cls, name, gr, oracle, ref)
     n_paths, lost = t.run(max_len=40)
     ck.traces += n_paths
     tag = f"{cls}/{name}"
+    # vacuity of the staleness paths: the shapes the configuration is there for were executed and compared
+    want = []
+    if name == "required":
+        want = [f"Validate;EditRequired({op});Validate" for op in req_ops]
+    elif name == "copy-clean":
+        want = ["Validate;Copy;Validate(copy)", "Pickle;Copy;Validate(copy)"] + \
+               [f"Copy;EditRequired({op});Validate" for op in req_ops]
+    missing = [w for w in want if not t.shapes.get(w)]
+    if missing and not ck.violations:
+        raise MachineryError(f"vacuity: {tag}: path shapes never executed: {missing}")
+    if t.shapes:
+        ck.extra.setdefault("path_shapes", {})[tag] = dict(sorted(t.shapes.items()))
     ck.extra.setdefault("tours", {})[tag] = {
         "states": len(gr.states), "edges": len(gr.edges), "paths": n_paths, "steps_replayed": t.n_steps,
         "edges_covered": len(t.covered), "edges_behind_known_findings": lost, "probe_validations": t.n_probes,
@@ -520,7 +640,7 @@ def simulate_graph(ck: Check, cls, *, nslots, num, depth):
     """Deep random histories generated by TLC in simulation mode."""
     js = cls == "json"
     if cls == "pydantic":
-        ops = PYDANTIC_EDITS + ["RejectRestrict", "RejectDelete", "Validate", "Repr"]
+        ops = PYDANTIC_EDITS + ["EditRequired", "RejectRestrict", "RejectDelete", "Validate", "Repr"]
     else:
         ops = EDITS + REJECTS + (QUERIES_JSON if js else QUERIES_SIMPLE + ["RejectMerge"])
     if nslots == 2:
@@ -530,7 +650,7 @@ def simulate_graph(ck: Check, cls, *, nslots, num, depth):
     ck.tlc("Grammar", cfg(cls, ops, atoms=["Int", "Num", "Str", "Arr", "Bool"], dkinds=("iarr", "float", "str"),
                           nslots=nslots, max_elems=3, max_atoms=3, depth=depth),
            workers=1, timeout=600, simulate=f"num={num},file={simdir}/b", depth=2 * depth, seed=ck.seed,
-           count=False, coverage=False)
+           count=False, coverage=False, tag=f"sim-{cls}-{nslots}-cfg")
     files = sorted(simdir.glob("b_*"), key=lambda p: [int(x) for x in re.findall(r"\d+", p.name)])
     return ChainGraph(files)
 
@@ -550,30 +670,87 @@ def simulate(ck: Check, cls, nslots, gr, oracle, ref):
         ck.sample({"config": f"{cls}/simulate", "history": [t.label(j) for j in gr.chains[0][:12]]})
 
 
-def run(ck: Check):
-    rng = random.Random(ck.seed)  # noqa: F841 - reserved for sampled extensions
+PARALLEL = 4   # TLC runs (one worker each) / replay processes at a time
+_JOBS = []     # replay jobs, inherited by the forked replay processes
+
+
+def _replay_job(i):
+    """One replay (a tour or a set of simulated behaviours) in a forked process: returns what it added to the check."""
+    ck, kind, cls, name, gr, oracle, arg = _JOBS[i]
+    ck.violations, ck.known_hits, ck.traces, ck.extra, ck.samples = [], {}, 0, {}, []
     ref = Reference(ck)
     complete = True
-    for cls in ("json", "simple", "pydantic"):
-        # 1. TLC: graphs of the focused configurations, simulated deep histories
-        graphs = [(name, tour_graph(ck, cls, name, ops, kw, require)) for name, ops, kw, require in configs(ck, cls)]
-        sims = []
+    if kind == "tour":
+        t = tour(ck, cls, name, gr, oracle, ref, arg)
+        complete = len(t.covered) == len(t.gr.edges)
+    else:
+        simulate(ck, cls, arg, gr, oracle, ref)
+    return {"violations": ck.violations, "known_hits": ck.known_hits, "traces": ck.traces, "extra": ck.extra,
+            "samples": ck.samples, "ref_jobs": ref.jobs, "complete": complete}
+
+
+def run(ck: Check):
+    import multiprocessing
+    from concurrent.futures import ThreadPoolExecutor
+
+    import logging
+
+    logging.disable(logging.CRITICAL)  # gemseo logs every rejected datum
+    rng = random.Random(ck.seed)  # noqa: F841 - reserved for sampled extensions
+    ref = Reference(ck)
+    classes = ("json", "simple", "pydantic")
+    # 1. TLC: graphs of the focused configurations, simulated deep histories (independent runs, PARALLEL at a time)
+    todo = []
+    for cls in classes:
+        for name, ops, kw, require in configs(ck, cls):
+            todo.append(("tour", cls, name, kw.get("req_ops", REQ_OPS),
+                         lambda cls=cls, name=name, ops=ops, kw=kw, require=require: tour_graph(ck, cls, name, ops, kw, require)))
         if ck.thorough or cls != "pydantic":
-            sims = [(1, simulate_graph(ck, cls, nslots=1, num=300 if ck.thorough else 30, depth=30 if ck.thorough else 20))]
+            num, depth = (300, 30) if ck.thorough else (30, 20)
+            todo.append(("sim", cls, "simulate1", 1,
+                         lambda cls=cls, num=num, depth=depth: simulate_graph(ck, cls, nslots=1, num=num, depth=depth)))
             if ck.thorough:
-                sims.append((2, simulate_graph(ck, cls, nslots=2, num=100, depth=12)))
-        # 2. TLC: probe data and verdicts for every grammar definition met (one oracle run per class)
-        oracle = Oracle(ck, cls)
+                todo.append(("sim", cls, "simulate2", 2, lambda cls=cls: simulate_graph(ck, cls, nslots=2, num=100, depth=12)))
+    with ThreadPoolExecutor(PARALLEL) as pool:
+        graphs = list(pool.map(lambda job: job[4](), todo))
+    for gr in graphs:
+        d, g = getattr(gr, "tlc_counts", (0, 0))
+        ck.states += d
+        ck.transitions += g
+    # 2. TLC: probe data and verdicts for every grammar definition met (one oracle run per class)
+    oracles = {cls: Oracle(ck, cls) for cls in classes}
+
+    def ensure(cls):
         keys = set()
-        for _, gr in graphs + sims:
-            keys |= live_keys(gr)
-        oracle.ensure(sorted(keys))
-        # 3. replay on the real grammars
-        for name, gr in graphs:
-            t = tour(ck, cls, name, gr, oracle, ref)
-            complete = complete and len(t.covered) == len(t.gr.edges)
-        for nslots, gr in sims:
-            simulate(ck, cls, nslots, gr, oracle, ref)
+        for job, gr in zip(todo, graphs):
+            if job[1] == cls:
+                keys |= live_keys(gr)
+        oracles[cls].ensure(sorted(keys))
+
+    with ThreadPoolExecutor(PARALLEL) as pool:
+        list(pool.map(ensure, classes))
+    # 3. replay on the real grammars (independent replays, PARALLEL forked processes; merged in a fixed order)
+    for cls in classes:
+        I.grammar_class(cls)
+    _JOBS[:] = [(ck, kind, cls, name, gr, oracles[cls], arg) for (kind, cls, name, arg, _), gr in zip(todo, graphs)]
+    order = sorted(range(len(_JOBS)), key=lambda i: -len(_JOBS[i][4].edges))
+    with multiprocessing.get_context("fork").Pool(PARALLEL) as pool:
+        results = dict(zip(order, pool.map(_replay_job, order, chunksize=1)))
+    _JOBS[:] = []
+    complete = True
+    for i in range(len(todo)):
+        res = results[i]
+        ck.violations += res["violations"]
+        for k, v in res["known_hits"].items():
+            ck.known_hits[k] = ck.known_hits.get(k, 0) + v
+        ck.traces += res["traces"]
+        for k, v in res["extra"].items():
+            ck.extra.setdefault(k, {}).update(v)
+        for smp in res["samples"]:
+            ck.sample(smp)
+        for k, v in res["ref_jobs"].items():
+            ref.jobs.setdefault(k, v)
+        complete = complete and res["complete"]
     ck.extra["reference_verdicts"] = ref.flush()
     from . import c15_more
 
@@ -586,6 +763,9 @@ def run(ck: Check):
         "merge of an unconstrained array type with an array-of-numbers type and merge with an untyped element are "
         "outside the modelled merge algebra (MergeOK)",
         "renaming onto an existing element is not specified and not exercised",
+        "an update that raises (invalid JSON schema, value without JSON type) must raise some exception and leave the "
+        "grammar unchanged (DESIGN 2.4); `required_names |= S` with a name that is not an element is half applied in "
+        "set-iteration order: not specified and not exercised (add of such a name is: RejectRequire)",
     ]
 
 
